@@ -42,7 +42,8 @@ class Project:
 
 
 HEADER_OF = {'GeographicErr': 'Constants', 'PolygonAreaT': 'PolygonArea', 'DAuxLatitude': 'DAuxLatitude'}
-SOURCE_OF = {}
+SOURCE_OF.update({'PolygonAreaT': 'PolygonArea'}) if False else None
+SOURCE_OF = {'PolygonAreaT': 'PolygonArea'}
 
 
 def header_of(cls):
